@@ -76,7 +76,8 @@ func loadWorld(repo string, overlay map[string][]byte) (*World, error) {
 		Overlay: overlay,
 	}
 	// never ./... : rewriter/test/out* are git-ignored leftovers that need not compile
-	pkgs, err := packages.Load(cfg, ".", "./seq", "./rewriter", "./cmd/cogen")
+	// go/ast is loaded with syntax too: its traversal functions (Inspect, Walk) are followed by some rules
+	pkgs, err := packages.Load(cfg, ".", "./seq", "./rewriter", "./cmd/cogen", "go/ast")
 	if err != nil {
 		return nil, fmt.Errorf("load: %w", err)
 	}
